@@ -47,6 +47,11 @@ type Case struct {
 	// receiving underlay's 5 s session clean-up, which other traffic on the same
 	// underlay (a second, multiplexed session opened at 5.3 s) gives the chance to run
 	LateReader bool `json:"lateReader,omitempty"`
+	// StallMs > 0 (TCP): the path stops delivering right before the writer's
+	// writes and resumes that much later (longer than the closer's one-second
+	// grace); the link buffer is small, so the writer's end is blocked in the
+	// connection's Write while further writes and Close arrive
+	StallMs int `json:"stallMs,omitempty"`
 	Seed          uint64 `json:"seed"`
 	Salt          uint64 `json:"salt"`
 }
@@ -135,6 +140,19 @@ func genCase(t *rapid.T) Case {
 			}
 			if c.Buf > 0 && c.Buf < 4096 {
 				c.Buf = 4096
+			}
+		}
+		if !c.LateReader && rapid.IntRange(0, 5).Draw(t, "stall") == 0 {
+			c.StallMs = rapid.SampledFrom([]int{1500, 2500, 4000}).Draw(t, "stallMs")
+			c.NoWait, c.RawClient = false, false // the connection is established before the path stalls
+			c.Buf = rapid.SampledFrom([]int{100, 4096}).Draw(t, "stallBuf")
+			c.Chunks = nil
+			c.ReaderLagMs = 0
+			if len(c.Writes) < 2 {
+				c.Writes = append(c.Writes, rapid.SampledFrom([]int{1, 100, 8000}).Draw(t, "stallSecondWrite"))
+			}
+			if c.Writes[0] < 8000 {
+				c.Writes[0] = 8000 // more than the link buffer holds: the first segment blocks in the network
 			}
 		}
 	}
@@ -388,7 +406,33 @@ func prop(c Case) (o pbt.Outcome) {
 		written = off
 	}
 
-	if !c.ServerWrites {
+	if c.StallMs > 0 && !c.UDP {
+		if err := getServer(); err != nil {
+			o.Inconclusive = "server side did not appear: " + err.Error()
+			return
+		}
+		writer, reader = cconn, sconn
+		if c.ServerWrites {
+			writer, reader = sconn, cconn
+		}
+		go runReader(reader)
+		for _, l := range sn.Links() {
+			l.Freeze(true)
+		}
+		unfreeze := time.AfterFunc(time.Duration(c.StallMs)*time.Millisecond, func() {
+			for _, l := range sn.Links() {
+				l.Freeze(false)
+			}
+		})
+		defer unfreeze.Stop()
+		defer func() {
+			for _, l := range sn.Links() {
+				l.Freeze(false)
+			}
+		}()
+		doWrites(writer)
+		o.Label("tcpStall")
+	} else if !c.ServerWrites {
 		writer = cconn
 		// client writes (first write also performs the 0-RTT handshake), server reads
 		srvReady := make(chan error, 1)
@@ -484,7 +528,7 @@ func prop(c Case) (o pbt.Outcome) {
 	if c.UDP {
 		o.NonTrivial = W > 0 && (unacked || fOnData)
 	} else {
-		o.NonTrivial = W > 0 && (c.ReaderLagMs > 0 || len(c.Chunks) > 0 || c.Buf > 0 || W > 32768)
+		o.NonTrivial = W > 0 && (c.ReaderLagMs > 0 || len(c.Chunks) > 0 || c.Buf > 0 || W > 32768 || c.StallMs > 0)
 	}
 	if r.mismatch != "" {
 		o.Failf("data", "reader: %s", r.mismatch)
